@@ -104,6 +104,8 @@ class ListMonitor(Monitor):
 
 
 def setup(concepts, spec):
+    from .. import probes
+    probes.install(['fcbo'])
     cap = CAP[spec['tier']]
     attach.attach_ctor(concepts)
     alg = concepts.algorithms
